@@ -16,7 +16,7 @@ import (
 func init() {
 	Register(&Property{
 		ID: "C01",
-		Explanation: "Decides structural necessary conditions of 'Check = reference semantics': (R01.11) evaluating a check never writes into or reorders the shared namespace configuration; (R01.10) the tuple listings the engine evaluates over are complete: sort column = cursor column = token column with a strict '>' in GetRelationTuples and in the traversal's internal paging, and the engine's page loops run to the empty token; (R01.9) a loop that adds one sub-check per fetched tuple adds one for every tuple, the only skips being 'already visited' and 'not a subject set'; (R01.8) an object handed to a sub-check that keeps running concurrently is not written afterwards by the code that handed it over (otherwise the answer depends on the schedule); (R01.7) a visited set is installed only below a single check, never by code that fans out several checks with one context; (R01.1) every AST node kind and operator the OPL parser can construct has a case in every dispatch of the check engine; (R01.2) the boolean combinators (or, and, not, the concurrent check group, the pass-through stages) have the right truth tables -- decided by abstractly executing each over the six abstract results; (R01.3) the visited set used to cut cycles is never shared between the operands of an intersection or with the child of a negation, on both routes a context reaches an operand (when it is built, when it is invoked), and is fresh per operand; (R01.5) which of the three sub-checks (rewrite, direct lookup, subject-set expansion) join the union equals the documented table for all valuations of (strict mode, relation configured, has rewrite, declares SubjectSet<>, skipDirect); (R01.6) every call that skips the direct lookup takes its tuple from a traversal result whose Found flag was tested first; (R01.4) the traversal SQL binds the columns the semantics names (decided with the SQL rules, reported under C04/C06 when those are built). " +
+		Explanation: "Decides structural necessary conditions of 'Check = reference semantics': (R01.12) the engines, mappers, handlers and storage objects hold no caching/coalescing state and the request-serving packages no pool or cache variable, so an answer depends on the current configuration and store only; (R01.11) evaluating a check never writes into or reorders the shared namespace configuration; (R01.10) the tuple listings the engine evaluates over are complete: sort column = cursor column = token column with a strict '>' in GetRelationTuples and in the traversal's internal paging, and the engine's page loops run to the empty token; (R01.9) a loop that adds one sub-check per fetched tuple adds one for every tuple, the only skips being 'already visited' and 'not a subject set'; (R01.8) an object handed to a sub-check that keeps running concurrently is not written afterwards by the code that handed it over (otherwise the answer depends on the schedule); (R01.7) a visited set is installed only below a single check, never by code that fans out several checks with one context; (R01.1) every AST node kind and operator the OPL parser can construct has a case in every dispatch of the check engine; (R01.2) the boolean combinators (or, and, not, the concurrent check group, the pass-through stages) have the right truth tables -- decided by abstractly executing each over the six abstract results; (R01.3) the visited set used to cut cycles is never shared between the operands of an intersection or with the child of a negation, on both routes a context reaches an operand (when it is built, when it is invoked), and is fresh per operand; (R01.5) which of the three sub-checks (rewrite, direct lookup, subject-set expansion) join the union equals the documented table for all valuations of (strict mode, relation configured, has rewrite, declares SubjectSet<>, skipDirect); (R01.6) every call that skips the direct lookup takes its tuple from a traversal result whose Found flag was tested first; (R01.4) the traversal SQL binds the columns the semantics names (decided with the SQL rules, reported under C04/C06 when those are built). " +
 			"Not decided: equality with the reference semantics over all configurations and stores, schedule independence in general, SQL engine semantics.",
 		Assumptions: []string{
 			"the documented mode table (embedx/config.schema.json, experimental_strict_mode) is the specification of default/strict mode",
@@ -41,6 +41,8 @@ func runC01(c *Ctx) {
 	r019(c)
 	// R01.11 the configuration the semantics is defined over is not changed by evaluating a check
 	configReadOnly(c, "R01.11")
+	// R01.12 the answer depends on the current configuration and store only: no cache in the engines
+	singletonState(c, "R01.12")
 	// R01.10 the listings the engine evaluates over are complete: keyset paging of
 	// GetRelationTuples and of the traversal, and the engine's page loops (the C07 rules)
 	c.R.SubRun(func() { runC07(c) }, map[string]string{"R07.1": "R01.10", "R07.2": "R01.10", "R07.5": "R01.10"})
